@@ -87,7 +87,7 @@ type weights map[string]int
 var profiles = map[string]weights{
 	"c13": {"pub": 22, "sub": 8, "rdy": 12, "fin": 14, "req": 8, "touch": 3, "scan": 8, "cls": 2, "disc": 3, "pausec": 3, "pauset": 2, "emptyc": 4, "emptyt": 1, "createc": 3, "foreign": 3},
 	"c02": {"pub": 18, "sub": 9, "rdy": 12, "fin": 12, "req": 10, "touch": 6, "scan": 12, "cls": 1, "disc": 3, "pausec": 1, "createc": 2, "foreign": 12},
-	"c03": {"pub": 18, "sub": 9, "rdy": 20, "fin": 10, "req": 6, "touch": 1, "scan": 6, "cls": 5, "disc": 2, "pausec": 9, "pauset": 6, "createc": 2, "foreign": 4, "badstate": 2, "restart": 2},
+	"c03": {"pub": 18, "sub": 9, "rdy": 20, "fin": 10, "req": 6, "touch": 1, "scan": 6, "cls": 5, "disc": 2, "pausec": 9, "pauset": 6, "createc": 2, "foreign": 4, "badstate": 2, "restart": 2, "emptyc": 3},
 	"c01": {"pub": 24, "sub": 8, "rdy": 10, "fin": 6, "req": 10, "touch": 2, "scan": 10, "cls": 2, "disc": 8, "pausec": 3, "pauset": 3, "createc": 6, "foreign": 1, "restart": 2},
 	"c08": {"pub": 18, "sub": 9, "rdy": 9, "fin": 6, "req": 6, "touch": 1, "scan": 6, "cls": 1, "disc": 5, "pausec": 2, "pauset": 2, "emptyc": 9, "emptyt": 3, "deletec": 6, "deletet": 3, "createc": 5, "createt": 2, "eph": 8, "foreign": 7},
 	"c04": {"pub": 26, "sub": 8, "rdy": 10, "fin": 8, "req": 16, "touch": 3, "scan": 20, "cls": 1, "disc": 3, "pausec": 2, "createc": 7, "foreign": 1},
